@@ -39,9 +39,15 @@ def cof_root():
 
 
 def draw_date(rng, boundary):
+    """on the 0.1-year grid or (every other draw) anywhere in between; 'boundary' = at an epoch change or within a few hundredths of a year of it
+    (the model valid at the date itself is the one to use, whatever the 0.1-year rounding of the secular term does)"""
     if boundary:
-        return float(rng.choice([2015.0, 2015.1, 2019.9, 2020.0, 2020.1, 2024.9, 2025.0, 2025.1, 2029.9, 2030.0]))
-    return round(float(rng.integers(20150, 20301)) / 10.0, 1)
+        if rng.random() < 0.5:
+            return float(rng.choice([2015.0, 2015.1, 2019.9, 2020.0, 2020.1, 2024.9, 2025.0, 2025.1, 2029.9, 2030.0]))
+        return float(rng.choice([2020.0, 2025.0])) + float(rng.choice([-0.06, -0.051, -0.049, -0.04, -0.01, -1e-6, 1e-6, 0.01, 0.04, 0.049, 0.051, 0.06]))
+    if rng.random() < 0.5:
+        return round(float(rng.integers(20150, 20301)) / 10.0, 1)
+    return float(rng.uniform(2015.0, 2030.0))
 
 
 def generate(rng, tier, shard, nshards):
@@ -104,6 +110,21 @@ def check(case, ctx):
     out = call(fresh)
     if ctx.returned(out, route="magnetic_field/fresh-object"):
         judge("magnetic_field/fresh-object", out.value)
+    # whole-number coordinates typed as int: the same place must give the same field
+    li, lo_, hi_ = int(np.clip(round(lat), -89, 89)), int(round(lon)), int(round(h))
+
+    def at(la, lo, hh):
+        w = WMM()
+        w.magnetic_field(la, lo, hh, date=d_arg)
+        return np.array([w.X, w.Y, w.Z], dtype=float)
+    o_f, o_i = call(at, float(li), float(lo_), float(hi_)), call(at, li, lo_, hi_)
+    if o_f.ok and ctx.returned(o_i, clause="no-exception[int coordinates]", route="magnetic_field/fresh-object"):
+        ctx.le("whole-number latitude / longitude / height typed as int give the same field as floats (nT)", float(np.abs(o_f.value - o_i.value).max()), 1e-9,
+               {"lat": li, "lon": lo_, "h": hi_, "float": o_f.value, "int": o_i.value}, route="magnetic_field/fresh-object")
+    o_c = call(lambda: WMM(date=d_arg, latitude=li, longitude=lo_, height=hi_))
+    if o_f.ok and o_c.ok and o_c.value.X is not None:
+        ctx.le("constructor with int coordinates gives the same field as the method with floats (nT)", float(np.abs(o_f.value - np.array([o_c.value.X, o_c.value.Y, o_c.value.Z], float)).max()), 1e-9,
+               {"lat": li, "lon": lo_, "h": hi_}, route="constructor")
     out = call(lambda: WMM(date=d_arg, latitude=lat, longitude=lon, height=h))
     if ctx.returned(out, route="constructor"):
         w = out.value
